@@ -1,7 +1,9 @@
 package rules
 
 import (
+	"fmt"
 	"go/types"
+	"sort"
 
 	"golang.org/x/tools/go/ssa"
 
@@ -216,42 +218,65 @@ func checkC18(c *Ctx) {
 		f := Callee(ci.Common())
 		return FuncNameIs(f, "(*"+pkgState+".RegMap).Store") || FuncNameIs(f, "("+pkgMemory+".MemMap).Store") || reachesStateStore(c, f, 0)
 	}
+	// Apply walked concretely (E7) for every kind of effect and both answers of
+	// "the folded address is a constant": a walk that returns false must not
+	// have passed a store into the state, however the result is produced (a
+	// literal, a named result, a flag)
 	nFalse := 0
-	for _, b := range apply.Blocks {
-		ret, ok := b.Instrs[len(b.Instrs)-1].(*ssa.Return)
-		if !ok {
-			continue
-		}
-		if _, isFalse := Match(ret.Results[0], BoolPat(false)); !isFalse {
-			if _, isTrue := Match(ret.Results[0], BoolPat(true)); !isTrue {
-				c.Fail("C18.refuse", ShortName(apply)+"/return(non-constant)", c.Prog.Pos(ret.Pos()), "Apply's result is not a constant; cannot tell refusal from success")
-			}
-			continue
-		}
-		nFalse++
-		key := ShortName(apply) + "/return-false#" + itoa(nFalse)
-		bad := ""
-		for _, bb := range apply.Blocks {
-			for _, in := range bb.Instrs {
-				if !isStateStore(in) {
-					continue
-				}
-				// can the return be reached after the store?
-				reach := false
-				ReachableFromInstr(in, func(x ssa.Instruction) {
-					if x == ssa.Instruction(ret) {
-						reach = true
+	var kinds []string
+	for name := range ts.Cases {
+		kinds = append(kinds, name)
+	}
+	sort.Strings(kinds)
+	for _, kind := range kinds {
+		for _, isConst := range []bool{true, false} {
+			kind, isConst := kind, isConst
+			vl := &Valuation{
+				Bool: func(v ssa.Value) (bool, bool) {
+					if ex, ok := v.(*ssa.Extract); ok && ex.Index == 1 {
+						if ta, ok := ex.Tuple.(*ssa.TypeAssert); ok {
+							if ta.X == ts.X {
+								if an, ok := ta.AssertedType.(*types.Named); ok {
+									return an.Obj().Name() == kind, true
+								}
+							}
+							if TypeNameIs(ta.AssertedType, "pkg/expr.Const") {
+								return isConst, true
+							}
+						}
 					}
-				})
-				if reach {
+					return false, false
+				},
+			}
+			res := vl.Walk(apply.Blocks[0], nil)
+			key := fmt.Sprintf("%s/%s/address-constant=%v", ShortName(apply), kind, isConst)
+			if !res.OK {
+				c.Undecide("C18.refuse: %s cannot be walked: %s", key, res.Why)
+				continue
+			}
+			if _, isRet := res.End.(*ssa.Return); !isRet {
+				continue // a panic: nothing is reported as refused
+			}
+			applied, known := res.RetBool[0]
+			if !known {
+				c.Fail("C18.refuse", key, c.Prog.Pos(res.End.Pos()), "Apply's result cannot be evaluated; cannot tell refusal from success")
+				continue
+			}
+			if applied {
+				continue
+			}
+			nFalse++
+			bad := ""
+			for _, in := range res.Instrs {
+				if isStateStore(in) {
 					bad = c.Prog.Pos(in.Pos())
 				}
 			}
-		}
-		if bad != "" {
-			c.Fail("C18.refuse", key, c.Prog.Pos(ret.Pos()), "state is modified at "+bad+" before the effect is refused")
-		} else {
-			c.Pass("C18.refuse", key, c.Prog.Pos(ret.Pos()), "")
+			if bad != "" {
+				c.Fail("C18.refuse", key, c.Prog.Pos(res.End.Pos()), "state is modified at "+bad+" before the effect is refused")
+			} else {
+				c.Pass("C18.refuse", key, c.Prog.Pos(res.End.Pos()), "")
+			}
 		}
 	}
 	c.RequireCount("C18.refuse", nFalse, 1)
